@@ -272,6 +272,21 @@ func (c *Ctx) Finish() {
 				continue
 			}
 		}
+		if v.noInput && concrete >= 0 {
+			// explained by the concrete failing input reported in this run: named in its replay
+			if b, ok := v.replay["broken"].(string); ok {
+				prev, _ := c.violations[concrete].replay["broken_ties"].([]string)
+				dup := false
+				for _, x := range prev {
+					dup = dup || x == b
+				}
+				if !dup {
+					c.violations[concrete].replay["broken_ties"] = append(prev, b)
+				}
+			}
+			nViol++
+			continue
+		}
 		nViol++
 		if seenSig[v.signature] {
 			continue
